@@ -14,7 +14,20 @@ import time
 from .unit import REPO
 from .kani_backend import KFailure
 
+import hashlib
+
 CACHE = os.environ.get('VERIF_CACHE', '/var/tmp/parol-verif-cache')
+# one build cache per repository path: a run against a scratch copy (VERIF_REPO) must never share binaries with a run against /repo
+REPO_KEY = hashlib.md5(os.path.realpath(REPO).encode()).hexdigest()[:8]
+
+
+def _private_copy(exe, work, name):
+    """the binary that was just built is copied into this run's scratch directory, so that a concurrent build in the shared
+    cache cannot replace it between build and run"""
+    os.makedirs(work, exist_ok=True)
+    dst = os.path.join(work, name + '.bin')
+    shutil.copy2(exe, dst)
+    return dst
 
 
 def build_native_from_kani_template(u, work):
@@ -29,7 +42,7 @@ def build_native_from_kani_template(u, work):
     # the entry point exists only in the native build (cargo kani would trip over a feature-gated bin target)
     os.makedirs(os.path.join(cdir, 'src', 'bin'), exist_ok=True)
     shutil.copy(os.path.join(kdir, 'native_bin_%s.rs' % u['bin']), os.path.join(cdir, 'src', 'bin', u['bin'] + '.rs'))
-    tdir = os.path.join(CACHE, 'tpl_' + u['kani_template'])
+    tdir = os.path.join(CACHE, 'tpl_' + u['kani_template'] + '-' + REPO_KEY)
     os.makedirs(tdir, exist_ok=True)
     env = dict(os.environ, CARGO_NET_OFFLINE='true', CARGO_TARGET_DIR=tdir)
     t0 = time.time()
@@ -37,7 +50,7 @@ def build_native_from_kani_template(u, work):
                        capture_output=True, text=True, env=env, timeout=1800)
     if p.returncode != 0:
         return None, 'native build of the template crate failed: ' + p.stderr[-1500:], time.time() - t0, info
-    return os.path.join(tdir, 'debug', u['bin']), '', time.time() - t0, info
+    return _private_copy(os.path.join(tdir, 'debug', u['bin']), work, u['name']), '', time.time() - t0, info
 
 
 def build_native(u, work):
@@ -58,7 +71,7 @@ def build_native(u, work):
     lock = os.path.join(REPO, 'Cargo.lock')
     if os.path.exists(lock):
         shutil.copy(lock, os.path.join(cdir, 'Cargo.lock'))
-    tdir = os.path.join(CACHE, 'shared')      # one cache for all native units: the real crates are built once
+    tdir = os.path.join(CACHE, 'shared-' + REPO_KEY)      # one cache for all native units of this repository path: the real crates are built once
     os.makedirs(tdir, exist_ok=True)
     env = dict(os.environ, CARGO_NET_OFFLINE='true', CARGO_TARGET_DIR=tdir)
     t0 = time.time()
@@ -69,7 +82,7 @@ def build_native(u, work):
         p = subprocess.run(['cargo', 'build', '--offline', '--quiet'], cwd=cdir, capture_output=True, text=True, env=env, timeout=3600)
     if p.returncode != 0:
         return None, 'native build against /repo failed: ' + p.stderr[-1500:], time.time() - t0
-    exe = os.path.join(tdir, 'debug', u.get('bin', u['name']))
+    exe = _private_copy(os.path.join(tdir, 'debug', u.get('bin', u['name'])), work, u['name'])
     return exe, '', time.time() - t0
 
 
